@@ -126,6 +126,13 @@ func (c cacheNode) SetWithExpire(key string, val any, expire time.Duration) erro
 // SetWithExpireCtx sets the cache with key and v, using given expire.
 func (c cacheNode) SetWithExpireCtx(ctx context.Context, key string, val any,
 	expire time.Duration) error {
+	// a non-positive expire would make redis.SetexCtx issue a plain SET and
+	// leave an entry that never expires, fall back to the configured expiry,
+	// like newOptions does for a non-positive Expiry.
+	if expire <= 0 {
+		expire = c.aroundDuration(c.expiry)
+	}
+
 	data, err := jsonx.Marshal(val)
 	if err != nil {
 		return err
